@@ -480,13 +480,23 @@ def gen():
     fr = strip_comments(read("adapters/framed_tcp.rs"))
     sb = fn_body(fr, r"fn send\s*\(&self, data", "framed_tcp.rs::send")
     lock_pos, loop_pos = sb.find("self.send_lock.lock()"), sb.find("loop {")
-    defB("FRAMED_SEND_LOCKED", 0 <= lock_pos < loop_pos and bool(re.search(r"let _\w+ = self\.send_lock\.lock\(\)", sb)))
+    defB("FRAMED_SEND_LOCKED", 0 <= lock_pos < loop_pos and bool(re.search(r"let _\w+ = self\.send_lock\.lock\(\)", sb))
+         and sb.count("send_lock") == 1 and "drop(" not in sb)
+
+    def send_loop_ok(body):
+        return body.count(".write(") == 1 and body.count("loop {") == 1 and bool(re.search(r"total_bytes_sent \+= bytes_sent;", body)) \
+            and bool(re.search(r"ErrorKind::WouldBlock\s*=>\s*continue", body)) and "return" not in body
+    defB("FRAMED_SEND_LOOP_OK", send_loop_ok(sb) and bool(re.search(r"if total_bytes_sent == total_bytes\s*\{\s*break SendStatus::Sent", sb)))
+    tsb = fn_body(strip_comments(read("adapters/tcp.rs")), r"fn send\s*\(&self, data", "tcp.rs::send")
+    defB("TCP_SEND_LOOP_OK", send_loop_ok(tsb) and bool(re.search(r"if total_bytes_sent == data\.len\(\)\s*\{\s*break SendStatus::Sent", tsb)))
     wsb = fn_body(wss, r"fn receive\s*\(&self,", "ws.rs::receive")
     m = re.search(r"Message::Binary\(data\)\s*=>\s*\{(.*?)\}\s*Message::Close", wsb, flags=re.S)
     defB("WS_RECEIVE_LOOP_OK", bool(m) and "break" not in m.group(1) and "peek" not in wsb and "process_data(&data)" in m.group(1)
+         and "try_lock" not in wsb and bool(re.search(r"let mut state = self\.state\.lock\(\)\.expect\(OTHER_THREAD_ERR\);", wsb))
          and bool(re.search(r"Err\(Error::Io\(ref err\)\)\s*=>\s*break Self::io_error_to_read_status\(err\)", wsb)))
     wsend = fn_body(wss, r"fn send\s*\(&self, data", "ws.rs::send")
-    defB("WS_SEND_UNDER_STATE_LOCK", wsend.strip().startswith("let mut state = self.state.lock()"))
+    defB("WS_SEND_UNDER_STATE_LOCK", wsend.strip().startswith("let mut state = self.state.lock()") and "web_socket.send(message)" in wsend
+         and bool(re.search(r"ErrorKind::WouldBlock\s*=>\s*\{\s*result = web_socket\.flush\(\);", wsend)) and "web_socket.write(" not in wsend)
     ub = fn_body(strip_comments(udp), r"fn receive\s*\(&self,", "udp.rs::receive")
     defB("UDP_RECEIVE_NEVER_DISCONNECTS", "ReadStatus::Disconnected" not in ub)
     up = fn_body(strip_comments(udp), r"fn pending\s*\(&self,", "udp.rs::pending")
